@@ -180,6 +180,42 @@ pub fn run_case(voc: &concretise::Vocab, case: &Value, dump: Option<&str>) -> Ve
                                    "same": d2 == base, "base_read": g.read_outcome}).to_string());
             }
         }
+        "robust" => {
+            // base files (abstract or from a path), then the mutations the case lists, then one generation
+            let (mut fs, st) = load_case_files(voc, case);
+            let mut applied = true;
+            for m in case["muts"].as_array().cloned().unwrap_or_default() {
+                let fi = (m["file"].as_u64().unwrap_or(1) as usize).saturating_sub(1);
+                if fi >= fs.len() {
+                    applied = false;
+                    continue;
+                }
+                match crate::mutate::apply(&fs[fi].1, &m) {
+                    Some(t) => fs[fi].1 = t,
+                    None => applied = false,
+                }
+            }
+            let bytes: usize = fs.iter().map(|f| f.1.len()).sum();
+            events.push(json!({"ev":"mutated","applied":applied,"bytes":bytes}).to_string());
+            if let Some(d) = dump {
+                let dir = format!("{d}/{}", id);
+                let _ = std::fs::create_dir_all(&dir);
+                for (n, t) in &fs {
+                    let _ = std::fs::write(format!("{dir}/{n}"), t);
+                }
+            }
+            let start_name = case["start_override"].as_str().map_or(st, ToString::to_string);
+            let t0 = std::time::Instant::now();
+            let ftr = build_files(&fs, None, &start_name);
+            let g = generate(&ftr, 1, false);
+            // only the outcome events matter here
+            for e in g.events {
+                if e.contains("\"ev\":\"ret\"") || e.contains("\"ev\":\"written\"") {
+                    events.push(e);
+                }
+            }
+            events.push(json!({"ev":"elapsed","ms":t0.elapsed().as_millis() as u64}).to_string());
+        }
         "c12" | "c12path" => {
             let (fs, st) = load_case_files(voc, case);
             events.extend(c12(voc, case, &fs, &st));
